@@ -487,7 +487,7 @@ pub fn run(ctx: Ctx) -> i32 {
         ctx.replay_only(&["spec", "part", "input"], &case);
     }
     let max_atoms = if ctx.quick() { 2 } else { 3 };
-    let inputs = strings(&DEN_ALPHABET, 3);
+    let inputs = strings(&DEN_ALPHABET, if ctx.quick() { 3 } else { 4 });
     // (a) all atom sequences x all rendering choices x quoting x prefix x posix
     let mut den: Vec<(Vec<usize>, Vec<usize>)> = vec![];
     let mut seqs: Vec<Vec<usize>> = vec![vec![]];
